@@ -516,6 +516,52 @@ func c15OtherBaseTypes(c *lib.Ctx, entries []fit.VerifField) {
 			}
 		}
 		pbt := ref.BaseTypes[pf.Base]
+		// every other value of the base type byte (type numbers 17-31, reserved bits 5 and 6, the
+		// endian flag on one-byte types or missing on wide ones ...): a definition that uses it
+		// is refused or decoded, and the records that follow never make a reflection access fail
+		defined := map[byte]bool{}
+		for _, bt := range ref.BaseTypes {
+			defined[bt.Code] = true
+		}
+		for raw := 0; raw < 256; raw++ {
+			if defined[byte(raw)] {
+				continue
+			}
+			sz := pbt.Size
+			if pf.Array || pbt.Code == 0x07 {
+				sz = pbt.Size * 2
+			}
+			arch := byte(raw>>3) & 1
+			plan := &ref.Plan{HeaderSize: 14, Proto: 0x20, ProfVer: 2115}
+			plan.Records = append(plan.Records,
+				ref.Record{IsDef: true, Local: 0, Arch: arch, Global: 0, Fields: []ref.FieldDef{{Num: 0, Size: 1, Base: 0}}},
+				ref.Record{Local: 0, Data: [][]byte{{ft}}},
+				ref.Record{IsDef: true, Local: 1, Arch: arch, Global: e.Mesg, Fields: []ref.FieldDef{{Num: e.Num, Size: byte(sz), Base: byte(raw)}}})
+			for _, fill := range []byte{0x41, 0x01} {
+				d := make([]byte, sz)
+				for i := range d {
+					d[i] = fill
+				}
+				plan.Records = append(plan.Records, ref.Record{Local: 1, Data: [][]byte{d}})
+			}
+			b := plan.Bytes()
+			c.SetInflight(b)
+			f, derr, out := lib.GuardedDecode(b)
+			c.Eval()
+			if out.Panicked || out.Hang {
+				c.Violation(b, "message %d field %d defined with base type byte %#02x (not a defined base type), size %d: Decode panicked: %s\n%s", e.Mesg, e.Num, raw, sz, out.Panic, out.Stack)
+				return
+			}
+			if derr == nil && f != nil {
+				if _, _, eo := lib.GuardedEncode(f, archOrder(int(arch))); eo.Panicked {
+					c.Violation(b, "message %d field %d defined with base type byte %#02x: re-encoding the decoded File panicked: %s", e.Mesg, e.Num, raw, eo.Panic)
+					return
+				}
+				c.Count("undefined_base_type_bytes_accepted", 1)
+			} else {
+				c.Count("undefined_base_type_bytes_rejected", 1)
+			}
+		}
 		for _, bt := range ref.BaseTypes {
 			sizes := map[int]bool{bt.Size: true, pbt.Size * int(pf.Length): true, bt.Size * 3: true}
 			for sz := range sizes {
